@@ -754,3 +754,47 @@ def check_refs(ctx, base, safe, j, parsed):
             if nm not in declared.get(frm, set()):
                 ctx.oracle_failure("C11", f"{path}: 'from {frm} import {nm}' does not resolve to a generated declaration",
                                    {**base, "path": path, "import": f"{frm}.{nm}", "safe": safe})
+
+
+# --------------------------------------------------------------------------- C09: the two naming settings
+
+def skeleton(d) -> tuple:
+    """a declaration with every rendered name replaced by the recoverable Python name"""
+    return (d.kind, d.pyname, d.static, tuple(sorted(d.todos)),
+            tuple((p.python_name if p.python_name is not None else p.name, p.default, stubparse.render_type(p.type) if False else None)
+                  for p in (d.params or [])) if d.params is not None else None,
+            len(d.results), len(d.supers),
+            tuple(skeleton(m) for m in d.members))
+
+
+def check_flag_pair(ctx, label, res_off, res_on) -> None:
+    """C09: the Python names recoverable from the stubs are identical under both settings and nothing
+    else changes; with the flag off no annotation is emitted at all"""
+    if ctx.prop != "C09" or res_off[0] != "ok" or res_on[0] != "ok":
+        return
+    base = {"stage": "S-B", "case": label}
+    files_off, files_on = res_off[3], res_on[3]
+
+    def parse_all(files):
+        out = {}
+        for path, text in files.items():
+            try:
+                sf, _ = stubparse.parse(text, lenient=True)
+            except stubparse.StubSyntaxError:
+                continue
+            out.setdefault(sf.pymodule, []).append((path, sf))
+        return out
+    off, on = parse_all(files_off), parse_all(files_on)
+    for path, text in files_off.items():
+        if "@PythonName(" in text or "@PythonModule(" in text:
+            ctx.oracle_failure("C09", f"annotation emitted although naming conversion is off: {path}", {**base, "path": path})
+    if sorted(off) != sorted(on):
+        ctx.oracle_failure("C09", f"python modules recoverable from the stubs differ between the settings: "
+                                  f"{sorted(set(off) ^ set(on))[:4]}", base)
+        return
+    for mod in off:
+        sk_off = sorted(repr([skeleton(d) for d in sf.decls]) for _, sf in off[mod])
+        sk_on = sorted(repr([skeleton(d) for d in sf.decls]) for _, sf in on[mod])
+        if sk_off != sk_on:
+            ctx.oracle_failure("C09", f"declarations recoverable from the stubs of python module {mod!r} differ between the two "
+                                      f"naming settings", {**base, "module": mod, "off": sk_off[:1], "on": sk_on[:1]})
